@@ -1,3 +1,7 @@
 // Package eng holds the simulation engines; each file registers the plan of
 // the properties it decides.
 package eng
+
+import "os"
+
+func osChdir(dir string) error { return os.Chdir(dir) }
